@@ -303,7 +303,7 @@ JOBS['C09'] = [
 
 # ---------------------------------------------------------------- C08
 META['C08'] = {
-    'bounds': {'quick': 'a 4-line buffer (blanks, brackets, 2-byte characters, an empty and an indented line) x start positions rows 1..4 x columns {1,2,3,5,8}: 20 pairs of equivalent key sequences (x/d<space> X/dh D/d$ C/c$ s/c<space> S/cc Y/yy, named register against unnamed for dw de db dj d0 dfx yw, insert-mode ^H ^W ^U against typing the surviving text, with counts and symbolic typed characters); d<m> against y<m>P for 28 motions (w b e W B E $ 0 ^ l h j k G fx tx Fw Tw dd 2w 3l % } { + - 1G yy); numbered registers, appending register, autoindent',
+    'bounds': {'quick': 'a 4-line buffer (blanks, brackets, 2-byte characters, an empty and an indented line) x start positions rows 1..4 x columns {1,2,3,5,8}: 20 pairs of equivalent key sequences (x/d<space> X/dh D/d$ C/c$ s/c<space> S/cc Y/yy, named register against unnamed for dw de db dj d0 dfx yw, insert-mode ^H ^W ^U against typing the surviving text, with counts and symbolic typed characters); d<m> against y<m>P for 28 motions (w b e W B E $ 0 ^ l h j k G fx tx Fw Tw dd 2w 3l % } { + - 1G yy); numbered registers, appending register, autoindent; the region of d<motion> for 25 motions against the motion reference of C07 on three fixed buffers (line-wise, inclusive, exclusive; failing searches change nothing)',
                'thorough': 'same with the first two characters of line 2 symbolic (ASCII letter/blank/bracket, 2-byte, tab)'},
     'outside': 'the region of each motion itself is only constrained through these relations and through C07; ! filter; ^K digraphs, keymaps; ^T ^D; sequences of more than one command',
     'assumptions': ['runs of the real main() compared inside one path (symx_isolated); the cursor is observed by a marker typed at the end, the unnamed register by a put at the end of the buffer'],
@@ -313,6 +313,8 @@ JOBS['C08'] = [
      'timeout': {'quick': 280, 'thorough': 1700}, 'max_steps': 80000000, 'validate': {'quick': 6, 'thorough': 12}},
     {'name': 'delete_vs_yank_put', 'harness': 'c08_rel.c', 'units': 'ALL', 'defs': {'quick': {'MODE': 1}, 'thorough': {'MODE': 1, 'SYMBUF': 1}}, 'expect_reach': ['end', 'removed'], 'heavy': True,
      'timeout': {'quick': 280, 'thorough': 1700}, 'max_steps': 80000000, 'validate': {'quick': 6, 'thorough': 12}},
+    {'name': 'delete_regions', 'harness': 'c07_mot.c', 'units': 'ALL', 'defs': {'quick': {'NMOT': 39, 'OPER': 1}, 'thorough': {'LL': 2, 'NMOT': 39, 'SYMTEXT': 1, 'NCNT': 3, 'OPER': 1}}, 'heavy': True,
+     'expect_reach': ['end', 'asserted', 'failed-motion'], 'timeout': {'quick': 290, 'thorough': 3000}, 'max_steps': 60000000, 'validate': {'quick': 8, 'thorough': 16}},
     {'name': 'registers_autoindent', 'harness': 'c08_rel.c', 'units': 'ALL', 'defs': {'MODE': 2}, 'expect_reach': ['end'],
      'timeout': {'quick': 280, 'thorough': 1700}, 'max_steps': 80000000, 'validate': {'quick': 4, 'thorough': 8}},
 ]
